@@ -95,7 +95,7 @@ def main(run):
 
     # ------------------------------------------------------------ spglib directly vs model table
     nmax = 6 if thorough else 4
-    ndirect = 4000 if thorough else 250
+    ndirect = 8000 if thorough else 250
     for _ in range(ndirect):
         key = rng.choice(keys)
         rots = groups[key][0]
@@ -122,7 +122,7 @@ def main(run):
         run.count("spglib-direct", section="correspondence")
 
     # ------------------------------------------------------------ GridPoints vs model + oracle
-    ncase = 3000 if thorough else 260
+    ncase = 6000 if thorough else 260
     viol_seen = set()
     # designated region: groups for which spglib's fast-path guard (looks for +1 axis exchanges only) and phonopy's
     # guard (_has_mesh_symmetry, looks at mesh numbers only) both let a half shift on one of two exchanged axes through
@@ -148,6 +148,20 @@ def main(run):
                         sh2[b] = 0.5
                         forced.append((key, list(mesh), tuple(sh2), rng.random() < 0.5, tr))
     run.count("designated: half shift on one of two exchanged axes, spglib fast path", len(forced))
+    # designated region 2: operations that couple axes without being a -> +-b exchanges (body-centred tetragonal /
+    # orthorhombic primitive cells, C-centred and skewed-basis cells) with UNEQUAL mesh numbers, symmetry on
+    n0 = len(forced)
+    for key in [("bct", "auto"), ("bct", "P"), ("bco", "auto"), ("ortho_C", "auto"), ("mono_C", "auto"), ("ortho_skew", "P"), ("mono_skew", "P")]:
+        if key not in groups:
+            continue
+        rots, plat = groups[key]
+        meshes = [(4, 4, 3), (6, 6, 4), (3, 3, 2), (2, 2, 5)]
+        meshes.append(tuple(int(v) for v in length2mesh(rng.choice([7.0, 11.0, 14.0, 17.0]), plat, rotations=rots)))
+        if thorough:
+            meshes += [(3, 4, 4), (5, 2, 2), (2, 4, 2), (4, 3, 3)]
+        for msh in meshes:
+            forced.append((key, list(msh), rng.choice(SHIFT_POOL_HALF), rng.random() < 0.5, rng.random() < 0.6))
+    run.count("designated: axis-coupling operations with unequal mesh numbers", len(forced) - n0)
     for c in range(ncase + len(forced)):
         key = rng.choice(keys)
         mesh = [rng.randint(1, nmax) for _ in range(3)]
@@ -264,7 +278,7 @@ def main(run):
         run.count("oracle-grid", section="oracle")
 
     # ------------------------------------------------------------ length2mesh + extract_ir + shift2boolean
-    nl2m = 200 if thorough else 60
+    nl2m = 600 if thorough else 60
     for _ in range(nl2m):
         key = rng.choice(keys)
         rots, plat = groups[key]
@@ -509,7 +523,7 @@ def _same_grid(gp, m, info):
 
 def _end_to_end(run, rng, thorough, lines, meta):
     """Phonopy.run_mesh + thermal properties + smearing DOS with mesh symmetry on/off; init_mesh with IterMesh."""
-    ncell = 16 if thorough else 4
+    ncell = 24 if thorough else 4
     names = ["cscl", "nacl_prim", "zincblende_prim", "hcp", "bct", "rhombo", "mono_P", "triclinic", "wurtzite", "mono_Cm", "trig_P3"]
     done = 0
     tries = 0
